@@ -140,7 +140,15 @@ class Flow:
         self.rounds = 0
         from .callgraph import CallGraph
         cg = CallGraph(repo, MODULES)
-        self.entry_points = {f for f in self.funcs if f.cls is None and f.parent is None and not cg.callers.get(f)}
+        # a private function that is only ever mentioned as a value (stored in a table, passed as a callback) is called through
+        # that value, with the arguments the caller passes: it is not an entry point whose parameters come from outside
+        mentioned = set()
+        for m in MODULES:
+            for n in ast.walk(repo.module(m).tree):
+                if isinstance(n, ast.Name) and isinstance(n.ctx, ast.Load):
+                    mentioned.add(n.id)
+        self.entry_points = {f for f in self.funcs if f.cls is None and f.parent is None and not cg.callers.get(f) and
+                             not (f.name.startswith('_') and f.name in mentioned)}
         self.solve()
 
     # -- state ----------------------------------------------------------------------------
@@ -219,6 +227,7 @@ class Flow:
         for s in stmts:
             self.stmt(f, s, env)
             # `if not re.fullmatch(P, x): raise` refines x for the statements that follow
+            self._cur_func = f
             g = self._regex_guard(s)
             if g is not None:
                 env[g[0]] = ('re', g[1])
@@ -236,9 +245,9 @@ class Flow:
             elif isinstance(t, ast.Compare) and len(t.ops) == 1 and isinstance(t.ops[0], ast.Is) and \
                     isinstance(t.comparators[0], ast.Constant) and t.comparators[0].value is None:
                 c = t.left
-            if isinstance(c, ast.Call) and norm(c.func) in ('re.fullmatch',) and len(c.args) == 2 and \
-                    isinstance(c.args[0], ast.Constant) and isinstance(c.args[0].value, str):
-                return norm(c.args[1]), c.args[0].value
+            pat = self._pattern_of(getattr(self, '_cur_func', None), c)
+            if pat is not None:
+                return pat
         return None
 
     def _isinstance_guard(self, s):
